@@ -111,6 +111,8 @@ class Limits:
 def check_rows_inside(V, h, L, start, what):
     S, _ = h.rows()
     for k in range(start, S.shape[0]):
+        if not np.all(np.isfinite(S[k])):
+            continue
         o = L.outside(S[k])
         if o is not None:
             _viol(V, "sample.inside", "%s: stored sample %d has parameter %d = %r outside the limits [%r, %r] in force (%s)"
@@ -294,6 +296,11 @@ def execute(sc):
             if tag != h.label or not armed[0] or mon_hits:
                 return
             stats["evaluations_monitored"] += 1
+            if not np.all(np.isfinite(th)):
+                # the trajectory overflowed (e.g. infinite gradient at a wall): outside floating point,
+                # not a statement about limits
+                stats["probe_nonfinite_evaluation_point_ignored"] += 1
+                return
             o = L.outside(th)
             if o is not None:
                 mon_hits.append((kind, th.copy(), o))
